@@ -287,8 +287,8 @@ Section Proofs.
   Lemma extends_scoped a b c : extends a b -> chan_ok a c -> scoped a c = scoped b c.
   Proof.
     intros (HP & HU & x & HN) Hc. destruct c as [u j|n].
-    - apply (same_skel_scoped (mkS val (s_parent val a) (s_users val a) [] false)
-                              (mkS val (s_parent val a) (s_users val b) [] false) (CU u j)).
+    - apply (same_skel_scoped (mkS val (s_parent val a) (s_users val a) [] None)
+                              (mkS val (s_parent val a) (s_users val b) [] None) (CU u j)).
       repeat split; simpl; auto.
     - simpl in *.
       assert (E : option_map nskel (nth_error (s_nodes val a) n) = option_map nskel (nth_error (s_nodes val b) n)).
@@ -384,7 +384,7 @@ Section Proofs.
         ((if q_inject_self val q then [OC (q_self val q)] else []) ++ q_others val q) None false.
 
   Definition grown (st : state) (q : request) : state :=
-    mkS val (s_parent val st) (s_users val st) (s_nodes val st ++ [new_node st q]) false.
+    mkS val (s_parent val st) (s_users val st) (s_nodes val st ++ [new_node st q]) None.
 
   Lemma grown_extends st q : extends st (grown st q).
   Proof. repeat split; simpl. exists [nskel (new_node st q)]. rewrite map_app. reflexivity. Qed.
@@ -507,11 +507,11 @@ Section Proofs.
         * injection H as <- _. exact F.
   Qed.
 
-  Lemma pull_upstream_skel st r st1 ok :
-    pull_upstream val pyop is_none none_val st r = (st1, ok) -> same_skel st st1.
+  Lemma pull_upstream_skel st n r st1 ok :
+    pull_upstream val pyop is_none none_val st n r = (st1, ok) -> same_skel st st1.
   Proof.
     unfold pull_upstream. intros H.
-    destruct (wf_cache_hit val st); [injection H as <- _; apply same_skel_refl|].
+    destruct (wf_cache_hit val st _); [injection H as <- _; apply same_skel_refl|].
     destruct (fold_left _ _ _) as [st2 ok2] eqn:F.
     apply (fold_skel _ _ (ensure_skel _)) in F.
     injection H as <- _.
@@ -523,7 +523,7 @@ Section Proofs.
   Proof.
     unfold Inject.pull. intros H.
     destruct (nth_error (s_nodes val st) n) as [r|]; [|injection H as <- _; apply same_skel_refl].
-    destruct (pull_upstream val pyop is_none none_val st r) as [st1 ok] eqn:F.
+    destruct (pull_upstream val pyop is_none none_val st n r) as [st1 ok] eqn:F.
     apply pull_upstream_skel in F.
     destruct ok.
     - destruct (run_own st1 n) as [st2 res] eqn:R. apply run_own_skel in R.
@@ -539,7 +539,7 @@ Section Proofs.
   Proof.
     unfold Inject.pull. intros H.
     destruct (nth_error (s_nodes val st) n) as [r|]; [|discriminate].
-    destruct (pull_upstream val pyop is_none none_val st r) as [st1 ok] eqn:F.
+    destruct (pull_upstream val pyop is_none none_val st n r) as [st1 ok] eqn:F.
     apply pull_upstream_skel in F.
     destruct ok; [|discriminate].
     destruct (run_own st1 n) as [st2 res] eqn:R.
@@ -839,15 +839,17 @@ Definition w_rows : list pyrow :=
    ("add", ["int:1"; "str:'1'"], true, "TypeError");
    ("add", ["int:1"; "int:2"], false, "int:3");
    ("neg", ["int:1"], false, "int:-1");
-   ("pos", ["int:-1"], false, "int:-1");
+   ("neg", ["int:3"], false, "int:-3"); ("neg", ["int:0"], false, "int:0");
+   ("pos", ["int:-3"], false, "int:-3");
    ("mul", ["int:2"; "int:4"], false, "int:8");
    ("slice", ["str:'1_2'"], false, "slice:slice(None, '1_2', None)");
    ("slice", ["int:4"], false, "slice:slice(None, 4, None)");
    ("getitem", ["list:[1, 2, 3, 4]"; "slice:slice(None, 4, None)"], false, "list:[1, 2, 3, 4]")].
 Definition w_users (i_ran : bool) : list (urec tval) :=
   [mkU "x" [("user_input", "int:1")] true; mkU "y" [("user_input", "int:2")] true;
-   mkU "l" [("user_input", "list:[1, 2, 3, 4]")] true; mkU "i" [("user_input", "int:1")] i_ran].
-Definition w_st0 : state tval := mkS tval true (w_users false) [] false.
+   mkU "l" [("user_input", "list:[1, 2, 3, 4]")] true; mkU "i" [("user_input", "int:1")] i_ran;
+   mkU "z" [("p", "int:3"); ("q", "int:0")] false].
+Definition w_st0 : state tval := mkS tval true (w_users false) [] None.
 Definition w_pyop := tbl_pyop w_rows.
 Definition w_str := tbl_str w_strs.
 Definition w_inject := inject tval w_pyop w_str t_is_none "NoneType:None" (fun s => s).
@@ -961,12 +963,12 @@ Proof.
     intros H; try reflexivity; discriminate H.
 Qed.
 
-(* the parent's own cache short-circuits the second pull: +(-i), written before i had data, never
+(* the parent's own cache short-circuits the second pull: +(-z.p), written before z had run, never
    gets its input *)
 Lemma w_pull_cache : exists st1 a o1 st2 b o2 st3 c o3 st4 v st5,
-  w_inject w_st0 (@mkQ tval CNegative w_i [] true) = (st1, a, o1) /\
+  w_inject w_st0 (@mkQ tval CNegative (CU 4 0) [] true) = (st1, a, o1) /\
   w_inject st1 (@mkQ tval CPositive (CN a) [] true) = (st2, b, o2) /\
-  w_inject st2 (@mkQ tval CNegative w_x [] true) = (st3, c, o3) /\
+  w_inject st2 (@mkQ tval CNegative (CU 4 1) [] true) = (st3, c, o3) /\
   w_pull st3 c = (st4, PVal v) /\ w_pull st4 b = (st5, PUp) /\
-  w_pyop PNeg ["int:1"] = inl "int:-1" /\ w_pyop PPos ["int:-1"] = inl "int:-1".
+  w_pyop PNeg ["int:3"] = inl "int:-3" /\ w_pyop PPos ["int:-3"] = inl "int:-3".
 Proof. do 12 eexists. vm_compute. repeat split; reflexivity. Qed.
